@@ -129,6 +129,13 @@ func (S06) RunTape(t *sim.Tape, st *sim.Stats, keepLog bool) *sim.Outcome {
 	}
 	B2x, _ := be.bytesOf(L2)
 	B2 := append([]byte(nil), B2x...)
+	if L2.Binary() == L.Binary() {
+		// a 1-3 byte truncated digest made the two blocks collide on one link: the store holds
+		// only the first, so there is no second block for a bystander or a substitution
+		st.Inc("probe.two_blocks_one_short_link")
+		client2 = false
+		B2 = append(append([]byte(nil), B...), 0x01)
+	}
 	if !hashesTo(L, B) {
 		o.Fail("store-link-hash", codec.Name, "Store returned link %s but the bytes in storage do not hash to it (independent hash)", L)
 	}
